@@ -91,9 +91,13 @@ def _as_tuple(o: Any) -> Tuple[Any, ...]:
 
 
 def run(fn: Any, holder: nn.Module, inputs: List[torch.Tensor], gseed: int,
-        backward: bool = True, out_mask: Optional[List[bool]] = None) -> Dict[str, Any]:
+        backward: bool = True, out_mask: Optional[List[bool]] = None, no_grad: bool = False) -> Dict[str, Any]:
     """Call fn(*inputs) and, if asked, differentiate sum_i <out_i, g_i> w.r.t. every float
     input and every parameter of `holder` (autograd.grad: no .grad is written)."""
+    if no_grad:
+        with torch.no_grad():
+            outs = _as_tuple(fn(*inputs))
+        return {"outs": [o.detach().clone() if isinstance(o, torch.Tensor) else o for o in outs], "grads": None}
     outs = _as_tuple(fn(*inputs))
     res: Dict[str, Any] = {"outs": [o.detach().clone() if isinstance(o, torch.Tensor) else o for o in outs],
                            "grads": None}
